@@ -1023,7 +1023,7 @@ class StructuredTypeUnmarshaller(AbstractUnmarshaller[_ST]):
         - [`typelib.serdes.itervalues`][]
     """
 
-    __slots__ = ("fields_by_var",)
+    __slots__ = ("fields_by_var", "required")
 
     def __init__(self, t: type[_ST], context: ContextT, *, var: str | None = None):
         """Constructor.
@@ -1035,6 +1035,8 @@ class StructuredTypeUnmarshaller(AbstractUnmarshaller[_ST]):
         """
         super().__init__(t, context, var=var)
         self.fields_by_var = self._fields_by_var()
+        # A TypedDict is a plain dict at runtime, its constructor enforces nothing.
+        self.required = frozenset(getattr(t, "__required_keys__", ()))
 
     def _fields_by_var(self):
         fields_by_var = {}
@@ -1064,4 +1066,9 @@ class StructuredTypeUnmarshaller(AbstractUnmarshaller[_ST]):
         decoded = serdes.load(val)
         fields = self.fields_by_var
         kwargs = {f: fields[f](v) for f, v in serdes.iteritems(decoded) if f in fields}
+        missing = self.required - kwargs.keys()
+        if missing:
+            raise TypeError(
+                f"{val!r} is missing required keys for {self.t!r}: {sorted(missing)}"
+            )
         return self.t(**kwargs)
